@@ -667,6 +667,17 @@ pub fn check(run: &Run) -> Value {
         }
     });
     total.merge(o);
+    let ccs = column_cases();
+    let o = run_cases(&ccs, &|_, c, out| {
+        out.nontrivial += 1;
+        out.executions += 1;
+        let vs = judge_column(c);
+        out.outcome(if vs.is_empty() { "legacy-column-ok" } else { "legacy-column-violation" });
+        for (k, w) in vs {
+            out.violation(k, w, || serde_json::to_value(c).unwrap());
+        }
+    });
+    total.merge(o);
     total.report(run);
     println!("C15 two migrations on one instance: {} cases", n_pairs);
     let declared: std::collections::BTreeSet<String> = pairs.iter().map(|p| format!("{}->{}", p.1, p.2)).collect();
@@ -686,7 +697,101 @@ pub fn check(run: &Run) -> Value {
     })
 }
 
+
+// ---------------------------------------------------------------------------
+// A legacy column of a foreign file holds one value per instance: three same-class siblings carry
+// the legacy property with two migratable values and (where the legacy type has one) a value the
+// migration refuses, in every order. Each instance with a migratable value must come back with
+// its own migrated value, whatever its neighbours in the column hold.
+
+#[derive(Clone, Debug, Serialize, Deserialize)]
+pub struct CaseColumn {
+    pub class: String,
+    pub column_legacy: String,
+    pub order: usize,
+    pub with_unmigratable: bool,
+}
+
+pub fn column_cases() -> Vec<CaseColumn> {
+    let mut out = Vec::new();
+    for (class, legacy, _) in migrating_pairs() {
+        for with_unmigratable in [false, true] {
+            for order in 0..6 {
+                out.push(CaseColumn { class: class.clone(), column_legacy: legacy.clone(), order, with_unmigratable });
+            }
+        }
+    }
+    out
+}
+
+pub fn judge_column(c: &CaseColumn) -> Vec<(String, String)> {
+    let mut out = Vec::new();
+    let (new_name, migration) = match specdb::lookup(&c.class, &c.column_legacy) {
+        Lookup::Known(k) => match k.ser {
+            Ser::Migrate { to, migration } => (to, migration),
+            _ => return out,
+        },
+        _ => return out,
+    };
+    let values = legacy_values(&c.class, &c.column_legacy);
+    let good: Vec<&(String, Variant)> = values.iter().filter(|v| migration.perform(&v.1).is_ok()).collect();
+    let bad: Option<&(String, Variant)> = values.iter().find(|v| migration.perform(&v.1).is_err());
+    if good.len() < 2 {
+        return out;
+    }
+    let mut trio: Vec<(&str, &Variant, Option<String>)> = vec![("first", &good[0].1, migration.perform(&good[0].1).ok().map(|v| r(&v))), ("second", &good[good.len() - 1].1, migration.perform(&good[good.len() - 1].1).ok().map(|v| r(&v)))];
+    if c.with_unmigratable {
+        match bad {
+            Some(b) => trio.push(("unmigratable", &b.1, None)),
+            None => return out,
+        }
+    } else {
+        trio.push(("third", &good[good.len() / 2].1, migration.perform(&good[good.len() / 2].1).ok().map(|v| r(&v))));
+    }
+    let perm = [[0, 1, 2], [0, 2, 1], [1, 0, 2], [1, 2, 0], [2, 0, 1], [2, 1, 0]][c.order % 6];
+    let mut root = InstanceBuilder::new("DataModel");
+    for &i in &perm {
+        root = root.with_child(InstanceBuilder::new(c.class.as_str()).with_name(trio[i].0).with_property(c.column_legacy.as_str(), trio[i].1.clone()));
+    }
+    let dom = WeakDom::new(root);
+    let roots = dom.root().children().to_vec();
+    let read = crate::evidence::guarded(|| -> Result<WeakDom, String> {
+        let mut buf = Vec::new();
+        rbx_binary::Serializer::new().reflection_database(empty_db()).serialize(&mut buf, &dom, &roots).map_err(|e| format!("cannot build legacy file: {}", e))?;
+        rbx_binary::from_reader(buf.as_slice()).map_err(|e| format!("decode: {}", e))
+    });
+    let tag = format!("{}->{}{}", c.column_legacy, new_name, if c.with_unmigratable { "|with-unmigratable" } else { "" });
+    let back = match read {
+        Ok(Ok(d)) => d,
+        Ok(Err(e)) => {
+            out.push((format!("migrate-column|read-binary|error|{}", tag), format!("three {} carrying {} ({:?}): {}", c.class, c.column_legacy, perm, e)));
+            return out;
+        }
+        Err((s, m)) => {
+            out.push((format!("migrate-column|read-binary|panic|{}", tag), format!("panic at {}: {}", s, m)));
+            return out;
+        }
+    };
+    for i in back.descendants() {
+        let Some(t) = trio.iter().find(|t| t.0 == i.name) else { continue };
+        let Some(want) = &t.2 else { continue };
+        let got = i.properties.get(&new_name.as_str().into()).map(r);
+        if got.as_ref() != Some(want) {
+            out.push((
+                format!("migrate-column|read-binary|value|{}", tag),
+                format!("three {} carrying {} in column order {:?}: the instance '{}' should read back with {} = {}, got {:?}", c.class, c.column_legacy, perm.iter().map(|k| trio[*k].0).collect::<Vec<_>>(), i.name, new_name, want, got),
+            ));
+            break;
+        }
+    }
+    out
+}
+
 pub fn replay(case: &Value) -> Vec<(String, String)> {
+    if case.get("column_legacy").is_some() {
+        let c: CaseColumn = serde_json::from_value(case.clone()).unwrap_or_else(|e| crate::evidence::machinery_failure(&format!("bad replay: {}", e)));
+        return judge_column(&c);
+    }
     if case.get("double_a").is_some() {
         let c: CaseDouble = serde_json::from_value(case.clone()).unwrap_or_else(|e| crate::evidence::machinery_failure(&format!("bad replay: {}", e)));
         return judge_double(&c);
